@@ -48,6 +48,7 @@ TrJudge == /\ IsOp("Judge")
            /\ Clause("event_order_Judge", pc = "judge")
            /\ Clause("judged_against_held_measure", Ev[l].e0 = heldE)
            /\ Clause("judged_measure_is_of_proposal", Ev[l].e1 = newE)
+           /\ Clause("held_measure_is_the_measure_of_the_held_configuration", Ev[l].e0fresh)
            /\ Clause("better_or_equal_always_accepted", (newE <= heldE) => Ev[l].verdict)
            /\ Clause("metropolis_rule", (newE > heldE) => /\ (Ev[l].ucmp = "le" => Ev[l].verdict)
                                                           /\ (Ev[l].ucmp = "gt" => ~Ev[l].verdict))
